@@ -29,19 +29,28 @@ import (
 	"time"
 )
 
-const repoDir = "/repo"
-
 // verifDir is /verif unless VCHECK_DIR says otherwise (background runs from a
 // snapshot of /verif use their own directory and their own scratch space).
+// repoDir is /repo unless VCHECK_REPO says otherwise (sensitivity experiments run
+// the checks against a scratch worktree that carries a seeded change; the
+// registered commands never set it).
 var (
+	repoDir    = "/repo"
 	verifDir   = "/verif"
 	scratchDir = "/tmp/elksim"
 )
 
 func init() {
-	if d := os.Getenv("VCHECK_DIR"); d != "" && d != "/verif" {
+	d := os.Getenv("VCHECK_DIR")
+	r := os.Getenv("VCHECK_REPO")
+	if d != "" {
 		verifDir = d
-		sum := sha256.Sum256([]byte(d))
+	}
+	if r != "" {
+		repoDir = r
+	}
+	if verifDir != "/verif" || repoDir != "/repo" {
+		sum := sha256.Sum256([]byte(verifDir + "|" + repoDir))
 		scratchDir = "/tmp/elksim-" + hex.EncodeToString(sum[:4])
 	}
 }
@@ -1020,6 +1029,9 @@ func confirmAndMinimise(tmp, prop string, l runLine, tier string) string {
 }
 
 func replayCmd(path string) int {
+	if abs, err := filepath.Abs(path); err == nil {
+		path = abs // workers run in the scratch directory
+	}
 	ensureBuild(false)
 	b, err := os.ReadFile(path)
 	if err != nil {
